@@ -37,15 +37,22 @@ def Inv (st : Hal) : Prop :=
   (∀ t, st.sink = some t → st.ttyAttached = st.activeConsole ∧ st.ttyState = stateActive ∧
       st.ring.contents = [] ∧
       ∃ n, st.linkedAt = some n ∧ n ≤ st.logged.length ∧
-        st.ttyRecv = lastN cap (st.logged.take n) ++ st.logged.drop n)
+        st.ttyRecv = lastN cap (st.logged.take n) ++ st.logged.drop n) ∧
+  -- the terminal is attached and activated exactly once, at the link (never re-attached: `VT.AttachTo` resets it)
+  (st.ttyAttachCalls = (if st.sink.isSome then 1 else 0) ∧ st.ttySetStateCalls = (if st.sink.isSome then 1 else 0))
 
 /-- a write to the current sink keeps the invariant -/
 theorem writeTo_inv (st : Hal) (bs : List UInt8) (h : Inv st) : Inv (st.writeTo st.sink bs) := by
-  obtain ⟨hwf, hsink, hnone, hsome⟩ := h
+  obtain ⟨hwf, hsink, hnone, hsome, hcnt⟩ := h
+  have hcnt' : (st.writeTo st.sink bs).ttyAttachCalls = (if (st.writeTo st.sink bs).sink.isSome then 1 else 0) ∧
+      (st.writeTo st.sink bs).ttySetStateCalls = (if (st.writeTo st.sink bs).sink.isSome then 1 else 0) := by
+    obtain ⟨_, _, _, c4, _, _, c7, c8, _, _, _⟩ := writeTo_sameCtl st st.sink bs
+    rw [c4, c7, c8]; exact hcnt
   cases hs : st.sink with
   | none =>
     obtain ⟨h1, h2, h3, h4, h5⟩ := hnone hs
-    refine ⟨?_, ?_, ?_, ?_⟩
+    rw [hs] at hcnt'
+    refine ⟨?_, ?_, ?_, ?_, hcnt'⟩
     · exact write_wf _ _ hwf
     · simpa [Hal.writeTo, hs] using hsink
     · intro _
@@ -55,7 +62,8 @@ theorem writeTo_inv (st : Hal) (bs : List UInt8) (h : Inv st) : Inv (st.writeTo 
     · intro t ht; simp [Hal.writeTo, hs] at ht
   | some t0 =>
     obtain ⟨h1, h2, h3, n, h4, h5, h6⟩ := hsome t0 hs
-    refine ⟨hwf, ?_, ?_, ?_⟩
+    rw [hs] at hcnt'
+    refine ⟨hwf, ?_, ?_, ?_, hcnt'⟩
     · simpa [Hal.writeTo, hs] using hsink
     · intro hn; simp [Hal.writeTo, hs] at hn
     · intro t _
@@ -157,8 +165,8 @@ theorem afterLogs_spec (s : Hal × PW) (d : Driver) (hinv : Inv s.1) :
     rw [← hsk]; exact writeTo_inv st c hi
   have hP0 : P s0.1 := by
     refine ⟨?_, SameCtl.refl _⟩
-    obtain ⟨h1, h2, h3, h4⟩ := hinv
-    exact ⟨h1, h2, h3, h4⟩
+    obtain ⟨h1, h2, h3, h4, h5⟩ := hinv
+    exact ⟨h1, h2, h3, h4, h5⟩
   have h1 : P (pwWrites s.1.sink s0 d.initLog).1 := pwWrites_keeps _ P hP s0 _ hP0
   have h2 : P a.1 := pwWrites_keeps _ P hP _ _ h1
   obtain ⟨l1, l2, l3⟩ := pwWrites_logged s.1.sink s0 d.initLog
@@ -175,7 +183,8 @@ theorem afterLogs_spec (s : Hal × PW) (d : Driver) (hinv : Inv s.1) :
 
 /-- `linkTTYToConsole` from an unlinked state -/
 theorem link_spec (st : Hal) (t c : Nat) (hwf : st.ring.WF) (hs : st.sink = none) (hr : st.ttyRecv = [])
-    (hc : st.ring.contents = lastN cap st.logged) (hcon : st.activeConsole = some c) (htty : st.activeTTY = some t) :
+    (hc : st.ring.contents = lastN cap st.logged) (hcon : st.activeConsole = some c) (htty : st.activeTTY = some t)
+    (hcnt : st.ttyAttachCalls = 0 ∧ st.ttySetStateCalls = 0) :
     Inv st.link ∧ st.link.activeConsole = st.activeConsole ∧ st.link.activeTTY = st.activeTTY ∧
     st.link.activeDrivers = st.activeDrivers ∧ st.link.probes = st.probes ∧ st.link.inits = st.inits ∧
     st.link.logged = st.logged := by
@@ -183,7 +192,9 @@ theorem link_spec (st : Hal) (t c : Nat) (hwf : st.ring.WF) (hs : st.sink = none
   unfold Hal.link
   rw [htty]
   simp only [Hal.setOutputSink]
-  refine ⟨⟨d3, ?_, ?_, ?_⟩, trivial, trivial, trivial, trivial, trivial, trivial⟩
+  refine ⟨⟨d3, ?_, ?_, ?_, ?_⟩, trivial, trivial, trivial, trivial, trivial, trivial⟩
+  rotate_left 3
+  · simp [hcnt.1, hcnt.2]
   · simp [hcon, htty]
   · intro h; simp at h
   · intro t' _
@@ -226,7 +237,7 @@ theorem onDriverInit_spec (st : Hal) (d : Driver) (hinv : Inv st) :
     (st.onDriverInit d).activeDrivers = st.activeDrivers ∧ (st.onDriverInit d).probes = st.probes ∧
     (st.onDriverInit d).inits = st.inits ∧ (st.onDriverInit d).logged = st.logged := by
   have hinv0 := hinv
-  obtain ⟨hwf, hsink, hnone, hsome⟩ := hinv
+  obtain ⟨hwf, hsink, hnone, hsome, hcnt⟩ := hinv
   rcases hk : d.kind with _ | _ | _
   · -- console
     rcases Option.eq_none_or_eq_some st.activeConsole with hc | ⟨c, hc⟩
@@ -234,14 +245,14 @@ theorem onDriverInit_spec (st : Hal) (d : Driver) (hinv : Inv st) :
       obtain ⟨n1, n2, n3, n4, n5⟩ := hnone hs
       rcases Option.eq_none_or_eq_some st.activeTTY with ht | ⟨t, ht⟩
       · rw [odi_console_first st d hk hc ht]
-        refine ⟨⟨hwf, ?_, ?_, ?_⟩, ?_, ?_, rfl, rfl, rfl, rfl⟩
+        refine ⟨⟨hwf, ?_, ?_, ?_, hcnt⟩, ?_, ?_, rfl, rfl, rfl, rfl⟩
         · simp [hs, ht]
         · intro _; exact ⟨n1, n2, n3, n4, n5⟩
         · intro t h; simp [hs] at h
         · simp [hc]
         · simp
       · rw [odi_console_link st d t hk hc ht]
-        obtain ⟨i, l1, l2, l3, l4, l5, l6⟩ := link_spec { st with activeConsole := some d.id } t d.id hwf hs n1 n3 rfl ht
+        obtain ⟨i, l1, l2, l3, l4, l5, l6⟩ := link_spec { st with activeConsole := some d.id } t d.id hwf hs n1 n3 rfl ht (by simpa [hs] using hcnt)
         refine ⟨i, ?_, ?_, l3, l4, l5, l6⟩
         · rw [l1]; simp [hc]
         · rw [l2]; simp
@@ -255,14 +266,14 @@ theorem onDriverInit_spec (st : Hal) (d : Driver) (hinv : Inv st) :
       obtain ⟨n1, n2, n3, n4, n5⟩ := hnone hs
       rcases Option.eq_none_or_eq_some st.activeConsole with hc | ⟨c, hc⟩
       · rw [odi_tty_first st d hk ht hc]
-        refine ⟨⟨hwf, ?_, ?_, ?_⟩, ?_, ?_, rfl, rfl, rfl, rfl⟩
+        refine ⟨⟨hwf, ?_, ?_, ?_, hcnt⟩, ?_, ?_, rfl, rfl, rfl, rfl⟩
         · simp [hs, hc]
         · intro _; exact ⟨n1, n2, n3, n4, n5⟩
         · intro t h; simp [hs] at h
         · simp
         · simp [ht]
       · rw [odi_tty_link st d c hk ht hc]
-        obtain ⟨i, l1, l2, l3, l4, l5, l6⟩ := link_spec { st with activeTTY := some d.id } d.id c hwf hs n1 n3 hc rfl
+        obtain ⟨i, l1, l2, l3, l4, l5, l6⟩ := link_spec { st with activeTTY := some d.id } d.id c hwf hs n1 n3 hc rfl (by simpa [hs] using hcnt)
         refine ⟨i, ?_, ?_, l3, l4, l5, l6⟩
         · rw [l1]; simp
         · rw [l2]; simp [ht]
@@ -294,8 +305,8 @@ theorem probeOne_spec (s : Hal × PW) (d : Driver) (hinv : Inv s.1) (hat : s.2.a
   cases hp : d.probeOk with
   | false =>
     simp only [if_true, succ, hp, Bool.false_and, Bool.false_eq_true, if_false, List.append_nil, driverLog]
-    obtain ⟨h1, h2, h3, h4⟩ := hinv
-    refine ⟨⟨h1, h2, h3, h4⟩, hat, ?_⟩
+    obtain ⟨h1, h2, h3, h4, h5⟩ := hinv
+    refine ⟨⟨h1, h2, h3, h4, h5⟩, hat, ?_⟩
     simp [pick_none]
   | true =>
     obtain ⟨a1, a2, a3, a4, a5, a6, a7, a8, a9, _⟩ := afterLogs_spec s d hinv
@@ -311,8 +322,8 @@ theorem probeOne_spec (s : Hal × PW) (d : Driver) (hinv : Inv s.1) (hat : s.2.a
       obtain ⟨o1, o2, o3, o4, o5, o6, o7⟩ := onDriverInit_spec (afterLogs s d).1 d a1
       simp only [Option.isNone_none, Bool.true_and, if_true]
       refine ⟨?_, a9, o5.trans a6, o6.trans a7, ?_, ?_, ?_, o7.trans a8⟩
-      · obtain ⟨h1, h2, h3, h4⟩ := o1
-        exact ⟨h1, h2, h3, h4⟩
+      · obtain ⟨h1, h2, h3, h4, h5⟩ := o1
+        exact ⟨h1, h2, h3, h4, h5⟩
       · show ((afterLogs s d).1.onDriverInit d).activeConsole = _
         rw [o2, a2]
         rcases Option.eq_none_or_eq_some s.1.activeConsole with hc | ⟨c, hc⟩ <;> rw [hc] <;>
@@ -364,7 +375,7 @@ namespace Firefly.Hal
 open Firefly.Ring Firefly.Prefix Firefly.C16.Spec
 
 theorem boot_inv (p : Nat) (hp : p < N) : Inv (boot p) := by
-  refine ⟨emptyAt_wf p hp, rfl, ?_, ?_⟩
+  refine ⟨emptyAt_wf p hp, rfl, ?_, ?_, ⟨rfl, rfl⟩⟩
   · intro _
     refine ⟨rfl, rfl, ?_, rfl, rfl⟩
     show (emptyAt p).contents = lastN cap []
@@ -465,7 +476,7 @@ theorem link_linkedAt (st : Hal) (t : Nat) (h : st.activeTTY = some t) : st.link
 theorem onDriverInit_linkedAt (st : Hal) (d : Driver) (hinv : Inv st) :
     (st.onDriverInit d).linkedAt =
       if st.sink = none ∧ (st.onDriverInit d).sink ≠ none then some st.logged.length else st.linkedAt := by
-  obtain ⟨_, hsink, _, _⟩ := hinv
+  obtain ⟨_, hsink, _, _, _⟩ := hinv
   rcases hk : d.kind with _ | _ | _
   · rcases Option.eq_none_or_eq_some st.activeConsole with hc | ⟨c, hc⟩
     · have hs : st.sink = none := by rw [hsink, hc]; rfl
